@@ -16,7 +16,7 @@ import time
 from . import engine, props as P
 from .engine import Undecided, VERIF, CACHE, REPO
 
-EVID = os.path.join(VERIF, 'evidence')
+EVID = os.environ.get('ANWEISS_CDDL_EVIDENCE') or os.path.join(VERIF, 'evidence')
 REPLAY_DIR = os.path.join(EVID, 'replay')
 
 
@@ -36,16 +36,33 @@ def build_replay():
     if _REPLAY_EXE:
         return _REPLAY_EXE[0]
     crate = os.path.join(VERIF, 'replay')
+    tdir = os.path.join(CACHE, 'replay-target')
+    if REPO != '/repo':
+        # scratch-tree mode (seeded-mutation testing): a copy of the crate whose path dependency
+        # points at the scratch tree, with its own target directory
+        import shutil
+        tag = hashlib.sha1(REPO.encode()).hexdigest()[:8]
+        alt = os.path.join(CACHE, 'replay-alt-' + tag)
+        os.makedirs(alt, exist_ok=True)
+        shutil.copytree(os.path.join(crate, 'src'), os.path.join(alt, 'src'), dirs_exist_ok=True)
+        toml = open(os.path.join(crate, 'Cargo.toml')).read().replace('path = "/repo"', 'path = "%s"' % REPO)
+        engine.write_if_changed(os.path.join(alt, 'Cargo.toml'), toml)
+        # the spec twins are included relative to CARGO_MANIFEST_DIR/../kani
+        kdir = os.path.join(CACHE, 'kani')
+        if not os.path.exists(kdir):
+            os.symlink(os.path.join(VERIF, 'kani'), kdir)
+        crate = alt
+        tdir = os.path.join(CACHE, 'replay-target-' + tag)
     lock = os.path.join(crate, 'Cargo.lock')
     if not os.path.exists(lock):
         import shutil
         shutil.copy(os.path.join(REPO, 'Cargo.lock'), lock)
     env = dict(os.environ, CARGO_NET_OFFLINE='true', RUSTFLAGS='--cfg anweiss_cddl_verif --cap-lints allow',
-               CARGO_TARGET_DIR=os.path.join(CACHE, 'replay-target'))
+               CARGO_TARGET_DIR=tdir)
     r = sh(['cargo', 'build', '--offline', '--quiet'], cwd=crate, env=env)
     if r.returncode != 0:
         raise Undecided('replay-build-failed', r.stderr[-3000:])
-    _REPLAY_EXE.append(os.path.join(CACHE, 'replay-target', 'debug', 'verif_replay'))
+    _REPLAY_EXE.append(os.path.join(tdir, 'debug', 'verif_replay'))
     return _REPLAY_EXE[0]
 
 
@@ -191,13 +208,29 @@ def decide(prop, tier, seed):
     violations = []   # dicts: label, message, unit, fn, detail
     canaries = []
 
+    unit_undecided = []
     for unit in cfg.get('vx', []):
-        res = engine.verify_unit(unit, tier)
+        try:
+            res = engine.verify_unit(unit, tier)
+        except Undecided as e:
+            if e.reason not in ('verus-rejected', 'anchor-lost', 'unsupported', 'verus-rlimit', 'verus-timeout', 'frame-lost'):
+                raise
+            # The verifier cannot decide this unit on the current code (construct outside the
+            # supported subset, scaffolding lost, solver limit).  That is never a violation by itself;
+            # the small-scope witness search on the REAL code may still confirm one.
+            unit_undecided.append((unit, e))
+            violations.append({'unit': unit, 'label': '%s:undecided-by-verifier' % unit, 'fn': None,
+                               'message': 'verifier could not decide unit %s (%s)' % (unit, e.reason),
+                               'clause': [], 'src_lines': [], 'verifier_output': (e.detail or '')[:2000],
+                               'engine': 'verus', 'needs_witness': ['unit undecided: %s' % e.reason], 'uncounted': True})
+            continue
         ex = res['ex']
         serves = ex.unit.get('serves', [])
         obligations += res['verified'] + res['errors']
         discharged += res['verified']
         cmds.append(res['cmd'])
+        trusted += ['Verus 0.2026.09.13 (rust_verify) + bundled Z3; vstd specifications of core/alloc (Vec, slices, String, Option, integer ops)',
+                    'rustc: the extracted token ranges mean in the generated file what they mean in the crate (rewrites listed in rewrites_applied)']
         trusted += ['%s: %s' % (unit, t) for t in res['trusted']]
         trusted += ['%s: %s' % (unit, t) for t in ex.unit.get('trusted', [])]
         rewrites += ex.rewrites
@@ -313,6 +346,9 @@ def decide(prop, tier, seed):
         rc = 1
     for ln in printed:
         print(ln)
+    if unit_undecided and rc == 0:
+        u, e = unit_undecided[0]
+        raise Undecided(e.reason, e.detail)
     if undecided and rc == 0:
         raise Undecided('unannotated-loop', '\n'.join(undecided))
     if stale and rc == 0:
@@ -343,6 +379,10 @@ def decide(prop, tier, seed):
         'wall_s': round(time.time() - t0, 2),
         'violations': len(real_violations),
     }
+    if obligations < 1 and rc == 1:
+        evidence['coverage']['obligations'] = len(seen_labels)
+        evidence['coverage']['discharged'] = 0
+        obligations = len(seen_labels)
     if obligations < 1:
         raise Undecided('no-obligations', 'the run generated no proof obligations')
     os.makedirs(EVID, exist_ok=True)
